@@ -498,6 +498,15 @@ func classifyErr(fi *FactInfo, b *ssa.BasicBlock, v ssa.Value, depth int) errKin
 			if isErrorCtor(f) {
 				return errNonNil
 			}
+			// errors.Wrap*(err, ...) is non-nil iff err is
+			if f.Pkg() != nil && f.Pkg().Path() == "github.com/pkg/errors" && len(x.Call.Args) > 0 {
+				switch f.Name() {
+				case "Wrap", "Wrapf", "WithStack", "WithMessage", "WithMessagef":
+					if depth < 4 && isErrorType(x.Call.Args[0].Type()) {
+						return classifyErr(fi, b, x.Call.Args[0], depth+1)
+					}
+				}
+			}
 			// return h.GetError() under the fact h.HasError()
 			if f.Name() == "GetError" {
 				recv := callRecv(x.Common())
@@ -656,6 +665,75 @@ func sameAddr(a, b ssa.Value) bool {
 	case *ssa.UnOp:
 		y, ok := b.(*ssa.UnOp)
 		return ok && x.Op == y.Op && x.Op == token.MUL && sameAddr(x.X, y.X)
+	}
+	return false
+}
+
+// ---- loops -------------------------------------------------------------------
+
+// Loop is a natural loop: header + body blocks.
+type Loop struct {
+	Header *ssa.BasicBlock
+	Blocks map[*ssa.BasicBlock]bool
+}
+
+// loopsOf finds the natural loops of fn (one per header, back edges merged).
+func loopsOf(fn *ssa.Function) []*Loop {
+	byHeader := map[*ssa.BasicBlock]*Loop{}
+	var order []*ssa.BasicBlock
+	for _, b := range fn.Blocks {
+		for _, s := range b.Succs {
+			if s.Dominates(b) { // back edge b -> s
+				l := byHeader[s]
+				if l == nil {
+					l = &Loop{Header: s, Blocks: map[*ssa.BasicBlock]bool{s: true}}
+					byHeader[s] = l
+					order = append(order, s)
+				}
+				// add all blocks that reach b without passing the header
+				stack := []*ssa.BasicBlock{b}
+				for len(stack) > 0 {
+					x := stack[len(stack)-1]
+					stack = stack[:len(stack)-1]
+					if l.Blocks[x] {
+						continue
+					}
+					l.Blocks[x] = true
+					stack = append(stack, x.Preds...)
+				}
+			}
+		}
+	}
+	var out []*Loop
+	for _, h := range order {
+		out = append(out, byHeader[h])
+	}
+	return out
+}
+
+// innermostLoop returns the smallest loop containing b.
+func innermostLoop(loops []*Loop, b *ssa.BasicBlock) *Loop {
+	var best *Loop
+	for _, l := range loops {
+		if l.Blocks[b] && (best == nil || len(l.Blocks) < len(best.Blocks)) {
+			best = l
+		}
+	}
+	return best
+}
+
+// blockEndsInFailure: the block returns a provably non-nil error or panics.
+func blockEndsInFailure(fi *FactInfo, b *ssa.BasicBlock, ei int) bool {
+	if len(b.Instrs) == 0 {
+		return false
+	}
+	switch x := b.Instrs[len(b.Instrs)-1].(type) {
+	case *ssa.Panic:
+		return true
+	case *ssa.Return:
+		if ei >= 0 && len(x.Results) > ei {
+			return classifyErr(fi, b, x.Results[ei], 0) == errNonNil
+		}
 	}
 	return false
 }
